@@ -53,4 +53,11 @@ def fieldType (n : Normalization) (cs : CaseFns) (s : String) : String :=
   if s == "ID" || s.startsWith "__" then s else n.camelCase cs s
 end Normalization
 
+/-- `shared::enum_variant_ident`: the identifier of the variant generated for an enum value — normalized, then
+    escaped like a keyword; `Other` is the name of the catch-all variant every generated enum has, so a value
+    that would get this identifier is escaped the same way -/
+def enumVariantIdent (n : Normalization) (cs : CaseFns) (v : String) : String :=
+  let s := keywordReplace (n.enumVariant cs v)
+  if s == "Other" then "Other_" else s
+
 end GqlVerif
